@@ -14,10 +14,10 @@ STRING_TYPES = ["StringArray", "WstringArray"]
 STRINGS = ["", "a", "b", "ab", "ba", "abc", "a b", "x" * 40, "A", "0"]
 
 FAMILY_OPS = {
-    "matrix": [(6, "m_new"), (8, "m_row"), (6, "m_slice"), (7, "m_set_s"), (7, "m_set_v"), (5, "m_set_m"), (4, "m_bad"),
+    "matrix": [(6, "m_new"), (8, "m_row"), (6, "m_slice"), (7, "m_set_s"), (7, "m_set_v"), (5, "m_set_m"), (5, "m_iop"), (4, "m_bad"),
                (6, "get"), (5, "set_s"), (4, "slice"), (4, "mask"), (4, "iop"), (3, "mv"), (3, "ro"), (5, "release"), (2, "gcp")],
     "array2d": [(6, "d_new"), (8, "d_item"), (8, "d_slice"), (7, "d_set_s"), (6, "d_set_a"), (5, "d_set_1d"), (5, "d_mask_get"),
-                (5, "d_mask_set"), (4, "d_bad"), (4, "release"), (2, "gcp")],
+                (5, "d_mask_set"), (5, "d_iop"), (4, "d_bad"), (4, "release"), (2, "gcp")],
     "varray": [(6, "v_new"), (8, "v_row"), (6, "v_slice"), (7, "v_mask"), (7, "v_set_row"), (8, "v_set_v"), (5, "v_set_m"), (5, "v_size"),
                (4, "v_resize"), (4, "v_ro"), (4, "v_bad"), (6, "get"), (5, "set_s"), (4, "iop"), (3, "ro"), (8, "release"), (3, "gcp")],
     "string": [(6, "s_new"), (9, "s_get"), (6, "s_slice"), (5, "s_mask"), (9, "s_set"), (5, "s_set_m"), (5, "s_set_v"), (4, "s_eq"),
@@ -41,6 +41,9 @@ def gen_family_op(r, fam, o, op, maxn, gen_slice):
         op["idx"] = r.choice([2 ** 31, -2 ** 31, 2 ** 32, 2 ** 32 + 1, -2 ** 32, 2 ** 63 - 1, -2 ** 63, 2 ** 64, -2 ** 64, 7, -8])
         op["how"] = r.choice(["get", "set", "set_v"])
         op["k"] = r.below(64)
+    elif o in ("m_iop", "d_iop"):
+        op["name"] = r.choice(["__iadd__", "__isub__"])
+        op["rhs"] = r.choice(["scalar", "same", "same", "badshape"])
     elif o in ("d_item",):
         op["i"], op["j"] = r.range(-6, 5), r.range(-6, 5)
     elif o in ("d_slice", "d_set_s", "d_set_a", "d_set_1d"):
@@ -252,6 +255,77 @@ class FamilyMixin:
             for k, r in enumerate(sel):
                 for c in range(h.cols):
                     h.store.vals[r * h.cols + c] = svals[k][c]
+
+    def small_value(self, tname, seed):
+        t = PT.ARRAYS[tname]
+        return tuple(self.wrap(t.base, (x % 7) if not isinstance(x, bool) else x) for x in self.fresh_value(tname, seed))
+
+    def op_m_iop(self, op):
+        """m += scalar / m += matrix of the same shape / of another shape (must raise)"""
+        h = self.pick_mat(op)
+        if not h:
+            return False
+        self.sig_ctx = ("matrix-inplace-" + op["rhs"], "mat", h.mtype)
+        sign = 1 if op["name"] == "__iadd__" else -1
+        t = PT.ARRAYS[h.tname]
+        fn = getattr(h.real, op["name"])
+        n = h.rows * h.cols
+        if op["rhs"] == "scalar":
+            v = self.small_value(h.tname, op["v"])
+            got = self.call(fn, self.to_real(h.tname, v))
+            per = [v] * n
+            bad = False
+        else:
+            rows = h.rows + (1 if op["rhs"] == "badshape" else 0)
+            src = getattr(imath, h.mtype)(rows, h.cols)
+            per = []
+            for r in range(rows):
+                rowv = [self.small_value(h.tname, op["v"] * 32 + r * h.cols + c) for c in range(h.cols)]
+                src[r] = self.make_array(h.tname, rowv)
+                per += rowv
+            got = self.call(fn, src)
+            bad = rows != h.rows
+            if bad:
+                self.inc("fault.bad_length")
+        self.expect(got, bad, "m %s= %s" % ("+" if sign > 0 else "-", op["rhs"]))
+        if not bad:
+            for k in range(n):
+                h.store.vals[k] = tuple(self.wrap(t.base, x + sign * y) for x, y in zip(h.store.vals[k], per[k]))
+
+    def op_d_iop(self, op):
+        h = self.pick_a2d(op)
+        if not h:
+            return False
+        if op["name"] not in getattr(imath, h.atype).__dict__:
+            return False
+        self.sig_ctx = ("array2d-inplace-" + op["rhs"], "a2d", h.atype)
+        sign = 1 if op["name"] == "__iadd__" else -1
+        t = PT.ARRAYS[h.tname]
+        fn = getattr(h.real, op["name"])
+        if op["rhs"] == "scalar":
+            v = self.small_value(h.tname, op["v"])
+            got = self.call(fn, self.to_real(h.tname, v))
+            per = {(i, j): v for j in range(h.ly) for i in range(h.lx)}
+            bad = False
+        else:
+            lx = h.lx + (1 if op["rhs"] == "badshape" else 0)
+            src = getattr(imath, h.atype)(lx, h.ly)
+            per = {}
+            for j in range(h.ly):
+                for i in range(lx):
+                    v = self.small_value(h.tname, op["v"] * 32 + j * lx + i)
+                    src[i, j] = self.to_real(h.tname, v)
+                    per[(i, j)] = v
+            got = self.call(fn, src)
+            bad = lx != h.lx
+            if bad:
+                self.inc("fault.bad_length")
+        self.expect(got, bad, "a2d %s= %s" % ("+" if sign > 0 else "-", op["rhs"]))
+        if not bad:
+            for j in range(h.ly):
+                for i in range(h.lx):
+                    k = j * h.lx + i
+                    h.store.vals[k] = tuple(self.wrap(t.base, x + sign * y) for x, y in zip(h.store.vals[k], per[(i, j)]))
 
     def op_m_bad(self, op):
         h = self.pick_mat(op)
